@@ -86,6 +86,12 @@ func (s scenario) String() string {
 type scEngine struct {
 	w    *World
 	memo map[string]int // 1 fails always, 2 not, 3 in progress
+	// undecidedOnSubject collects, during one top-level check, the branch
+	// conditions that depend on the scenario's subject but whose outcome the
+	// oracle could not determine: if a success return is reachable only
+	// because such a test was explored both ways, the argument may well be
+	// validated in a form the analysis does not interpret -- no verdict.
+	undecidedOnSubject []string
 	// failure classification for functions without error result
 	failConst map[*ssa.Function]func(*ssa.Return) bool
 }
@@ -1225,6 +1231,9 @@ func (c *simCtx) explore(start *ssa.BasicBlock, stop map[*ssa.BasicBlock]bool) m
 					}
 					return
 				}
+				if c.mentionsSubject(i.Cond, 0) {
+					c.e.undecidedOnSubject = append(c.e.undecidedOnSubject, shortInstr(i)+" in "+c.e.w.FuncName(c.f))
+				}
 			}
 			for _, s := range b.Succs {
 				if d, ok := blocked[b]; ok && s == d {
@@ -1364,6 +1373,68 @@ func (c *simCtx) derivedFromSplit(v ssa.Value) bool {
 	for _, sr := range findSliceRanges(c.f) {
 		if c.splitOfSubject(sr.X) && sr.blocks()[ai.Appends[0].Block()] {
 			return true
+		}
+	}
+	return false
+}
+
+// mentionsSubject: the value is computed from the scenario's subject (the
+// argument itself, its text, its list, a getter on it, or a call that
+// receives one of these).
+func (c *simCtx) mentionsSubject(v ssa.Value, depth int) bool {
+	if v == nil || depth > 6 {
+		return false
+	}
+	if c.isSubject(v) || c.textOfSubject(v) || c.isSubjectList(v) || c.splitOfSubject(v) {
+		return true
+	}
+	if c.sc.Kind == scPairRel && c.sc.Acc == nil {
+		for _, pi := range []int{c.sc.Param, c.sc.Param2} {
+			if pi < len(c.f.Params) && resolve(v) == ssa.Value(c.f.Params[pi]) {
+				return true
+			}
+		}
+	}
+	if c.sc.Acc != nil && c.getterOfBase(v) != nil {
+		return true
+	}
+	switch x := resolve(v).(type) {
+	case *ssa.BinOp:
+		return c.mentionsSubject(x.X, depth+1) || c.mentionsSubject(x.Y, depth+1)
+	case *ssa.UnOp:
+		return c.mentionsSubject(x.X, depth+1)
+	case *ssa.Convert:
+		return c.mentionsSubject(x.X, depth+1)
+	case *ssa.Extract:
+		return c.mentionsSubject(x.Tuple, depth+1)
+	case *ssa.Phi:
+		for _, e := range x.Edges {
+			if c.mentionsSubject(e, depth+1) {
+				return true
+			}
+		}
+	case *ssa.Lookup:
+		return c.mentionsSubject(x.Index, depth+1) || c.mentionsSubject(x.X, depth+1)
+	case *ssa.Index:
+		return c.mentionsSubject(x.X, depth+1)
+	case *ssa.IndexAddr:
+		return c.mentionsSubject(x.X, depth+1)
+	case *ssa.Field:
+		return c.mentionsSubject(x.X, depth+1)
+	case *ssa.FieldAddr:
+		return c.mentionsSubject(x.X, depth+1)
+	case *ssa.Slice:
+		return c.mentionsSubject(x.X, depth+1)
+	case *ssa.MakeInterface:
+		return c.mentionsSubject(x.X, depth+1)
+	case *ssa.Call:
+		for _, a := range x.Call.Args {
+			if c.mentionsSubject(a, depth+1) {
+				return true
+			}
+		}
+		if x.Call.IsInvoke() {
+			return c.mentionsSubject(x.Call.Value, depth+1)
 		}
 	}
 	return false
